@@ -244,6 +244,56 @@ static void run(const vf::Args &args, Report &rep)
     }
 }
 
+// concurrent callers: 8 threads, own operands; extension mul / inv / mulScalar(string) / batchInverse must not share hidden state
+static void run_concurrent(const vf::Args &args, Report &rep)
+{
+    const int T = 8;
+    uint64_t n = args.getu("concurrent", args.thorough() ? 2000000ULL : 200000ULL) / args.nshards / T + 1;
+    gen::G64 g;
+    struct Bad { const char *op = nullptr; uint64_t a[3], b[3]; } bad[T];
+    uint64_t seeds[T];
+    for (int t = 0; t < T; t++) seeds[t] = vf::mix64(args.seed, 0x09CC + args.shard * 131 + t);
+#pragma omp parallel num_threads(T)
+    {
+        int me = omp_get_thread_num() % T;
+        Rng q(seeds[me]);
+        for (uint64_t t = 0; t < n; t++)
+        {
+            uint64_t a[3], b[3];
+            for (int i = 0; i < 3; i++) { a[i] = g.pick(q); b[i] = g.pick(q); }
+            orc::E3 oa = o3(a), ob = o3(b);
+            E3 A, B, R;
+            set3(A, a); set3(B, b);
+            auto flag = [&](const char *op) { if (!bad[me].op) { bad[me].op = op; memcpy(bad[me].a, a, sizeof a); memcpy(bad[me].b, b, sizeof b); } };
+            Goldilocks3::mul(R, A, B); if (!same(R, orc::mul3(oa, ob))) flag("mul");
+            Goldilocks3::add(R, A, B); if (!same(R, orc::add3(oa, ob))) flag("add");
+            Goldilocks3::sub(R, A, B); if (!same(R, orc::sub3(oa, ob))) flag("sub");
+            Goldilocks3::square(R, A); if (!same(R, orc::mul3(oa, oa))) flag("square");
+            if (!orc::iszero3(oa)) { Goldilocks3::inv(R, A); if (!same(R, orc::inv3(oa))) flag("inv"); }
+            if ((t & 7) == 0)
+            {
+                std::string dec = std::to_string((unsigned long long)b[0]);
+                Goldilocks3::mulScalar(R, A, dec); if (!same(R, orc::scal3(oa, orc::canon(b[0])))) flag("mulScalar");
+            }
+            if ((t & 63) == 0)
+            {
+                uint64_t src[6 * 3], out[6 * 3];
+                for (int k = 0; k < 6; k++) do { for (int j = 0; j < 3; j++) src[3 * k + j] = q.next(); } while (orc::iszero3(orc::c3(src[3 * k], src[3 * k + 1], src[3 * k + 2])));
+                Goldilocks3::batchInverse((E3 *)out, (E3 *)src, 6);
+                for (int k = 0; k < 6; k++)
+                {
+                    orc::E3 e = orc::inv3(orc::c3(src[3 * k], src[3 * k + 1], src[3 * k + 2]));
+                    if (orc::canon(out[3 * k]) != e.c[0] || orc::canon(out[3 * k + 1]) != e.c[1] || orc::canon(out[3 * k + 2]) != e.c[2]) flag("batchInverse");
+                }
+            }
+        }
+    }
+    for (int t = 0; t < T; t++)
+        if (bad[t].op) rep.violation(std::string("C09:") + bad[t].op + ":concurrent-callers:wrong-value", J().str("op", bad[t].op).raw("a", j3(bad[t].a)).raw("b", j3(bad[t].b)).str("what", "8 threads calling the operation at the same time on their own operands").done());
+    rep.evaluations += n * T;
+    rep.cls("family:concurrent_callers", n * T);
+}
+
 // batch inversion for every length; long lengths in forked children (stack / crash attribution)
 static void run_batch(const vf::Args &args, Report &rep)
 {
@@ -300,7 +350,8 @@ int main(int argc, char **argv)
     Report rep;
     rep.open(args.prop, args.out);
     run(args, rep);
-    run_batch(args, rep);
+    run_batch(args, rep);      // forks: must come before the parent starts an OpenMP team
+    run_concurrent(args, rep);
     rep.finish();
     return 0;
 }
